@@ -11,7 +11,8 @@ From TK Require Import QuadTree_Model QuadTree_Spec QuadTree_SpecExec QuadTree_P
                        QuadTree_Proof_Fuel QuadTree_Proof_Spec QuadTree_Proof_Exec
                        QuadTree_Proof_Observers QuadTree_Proof_Order QuadTree_Proof_Order2 QuadTree_Proof_Bound
                        QuadTree_Proof_Gradient QuadTree_Proof_Dump QuadTree_Proof_Coarse QuadTree_Proof_Counts QuadTree_Proof_Terminates
-                       QuadTree_Proof_Final QuadTree_Proof_Sqrt.
+                       QuadTree_Proof_Final QuadTree_Proof_Sqrt
+                       QuadTree_Proof_Theta QuadTree_Float_Model QuadTree_Proof_Float QuadTree_Proof_FloatExact.
 Import ListNotations.
 Local Open Scope Q_scope.
 
@@ -394,3 +395,137 @@ Theorem summary_criterion_sqrt_free : forall m theta D : R,
   (m / sqrt D < theta)%R <-> (m * m < theta * theta * D)%R.
 Proof. exact summary_sqrt_free. Qed.
 Print Assumptions summary_criterion_sqrt_free.
+
+(* ======================= wave 2: every theta; binary64 ======================= *)
+
+(* 11. EVERY 0 <= theta1 <= theta2 (the whole range [0, 2] and beyond): the traversal at the smaller theta is the traversal
+       at the larger theta followed by a further descent inside each cell the larger theta summarised.  So the set of
+       summarised cells only moves towards the root as theta grows (11a), and the results differ only inside the cells
+       summarised at theta2 (11b; with theta1 = 0: the Barnes-Hut result differs from the exact traversal only there). *)
+Theorem forces_theta_refinement : forall p i theta1 theta2 t,
+  0 <= theta1 -> theta1 <= theta2 ->
+  forces_subtrees p i theta1 t = flat_map (forces_subtrees p i theta1) (forces_subtrees p i theta2 t).
+Proof. exact forces_subtrees_refine. Qed.
+Print Assumptions forces_theta_refinement.
+Theorem summarised_cells_monotone_in_theta : forall p i theta1 theta2 t s,
+  0 <= theta1 -> theta1 <= theta2 ->
+  In s (forces_subtrees p i theta1 t) ->
+  exists s2, In s2 (forces_subtrees p i theta2 t) /\ subtree s s2.
+Proof. exact summarised_cells_monotone. Qed.
+Print Assumptions summarised_cells_monotone_in_theta.
+Theorem forces_differ_only_inside_summaries : forall p i theta1 theta2 t a,
+  0 <= theta1 -> theta1 <= theta2 ->
+  forces_at p i theta1 t a =
+  fold_left (fun a s => forces_at p i theta1 s a) (forces_subtrees p i theta2 t) a.
+Proof. exact forces_at_refines. Qed.
+Print Assumptions forces_differ_only_inside_summaries.
+(* forces_subtrees is the list of cells the model driver prints (forces_cells), without the preorder numbers *)
+Theorem forces_subtrees_are_forces_cells : forall p i theta t n,
+  map (fun s => (qcum s, qcom s)) (forces_subtrees p i theta t) =
+  map (fun x => (snd (fst x), snd x)) (forces_cells p i theta n t).
+Proof. exact forces_subtrees_cells. Qed.
+Print Assumptions forces_subtrees_are_forces_cells.
+Example theta_refinement_nonvacuous : 0 <= (1#8) /\ (1#8) <= (1#2).
+Proof. split; discriminate. Qed.
+
+(* 12. why forces_error_bound stops at 8 theta^2 <= 1: at theta = 1/2 (the t-SNE default; 8 theta^2 = 2) a set without
+       coincident points in which the ROOT cell - which contains the query point - passes the criterion, so the whole map,
+       the query included, is one summary; the tree's sum_Q is below 1/1000 of the exact all-pairs sum: relative error
+       above 99.9 %.  No bound eps(theta) < 1 on the relative error exists beyond 2 sqrt 2 theta = 1. *)
+Theorem forces_large_theta_relative_error :
+  exists data order root t p r,
+    in_root data root order /\ NoCo data order /\
+    fill_order true 20 data order (init root) = Done true t /\
+    nth_error data 0 = Some p /\
+    1 < 8 * ((1#2) * (1#2)) /\
+    contains (qcell t) p = true /\ forces_subtrees p 0 (1#2) t = [t] /\
+    forces data 0 (1#2) t (0, 0, 0) = FDone r /\
+    1000 * snd r < snd (exact_sums data p 0 order).
+Proof. exact QuadTree_Proof_Theta.forces_large_theta_relative_error. Qed.
+Print Assumptions forces_large_theta_relative_error.
+
+(* 13. BINARY64 (Coq primitive floats; model QuadTree_Float_Model.v = containsPoint and the child boxes of subdivide(),
+       bit for bit).  children_cover (theorem 2) is FALSE in binary64 - known finding F25:
+       (a) a cell accepts a point that all four of its children reject (the point is dropped by subdivide(), or insert()
+           returns false after the cell has counted it); witness = corpus/C18/f25_crack_point_dropped.json *)
+Theorem children_cover_binary64_refuted :
+  exists (c : fcell) (p : fpt),
+    fcontains c p = true /\
+    fcontains (fnwc c) p = false /\ fcontains (fnec c) p = false /\
+    fcontains (fswc c) p = false /\ fcontains (fsec c) p = false.
+Proof. exact children_cover_binary64_refuted_gen. Qed.
+Print Assumptions children_cover_binary64_refuted.
+(* the same from the root box of the corpus case: insert() routes the point root -> SW -> SW, that cell accepts it, none
+   of its children does *)
+Theorem point_dropped_binary64 :
+  exists (root : fcell) (p : fpt),
+    fcontains root p = true /\
+    ffirst_child root p = Some 2%nat /\
+    ffirst_child (fchild 2 root) p = Some 2%nat /\
+    fcontains (fdescend [2%nat; 2%nat] root) p = true /\
+    ffirst_child (fdescend [2%nat; 2%nat] root) p = None /\
+    fcrack (fdescend [2%nat; 2%nat] root) p = true.
+Proof. exact point_dropped_binary64_gen. Qed.
+Print Assumptions point_dropped_binary64.
+(*     (b) phantom mass: the NW child a of c accepts the point (cum_size++), a's only accepting child a/SE accepts it
+           (cum_size++), all four children of a/SE reject it, so a/SE and a return false; c's NE child accepts and stores
+           it: a and a/SE keep mass for a point that lives in their sibling; corpus/C18/f25_crack_phantom_mass.json *)
+Theorem phantom_mass_binary64_refuted :
+  exists (c : fcell) (p : fpt),
+    fcontains c p = true /\
+    fcontains (fnwc c) p = true /\
+    ffirst_child (fnwc c) p = Some 3%nat /\
+    fcrack (fsec (fnwc c)) p = true /\
+    fcontains (fnec c) p = true.
+Proof. exact phantom_mass_binary64_refuted_gen. Qed.
+Print Assumptions phantom_mass_binary64_refuted.
+
+(* 14. ... and it HOLDS in binary64, bit for bit, on a class of exact inputs: a cell whose centre and half sizes are
+       multiples m * 2^g of one power of two (gmin = -1074 <= g <= gmax = 971) with headroom |mx| + 2|mw| < 2^53 in the
+       significand (cell_on_grid), and EVERY finite point (on the grid or not).  On that class containsPoint decides the
+       real-number containment (14a), the child boxes are the exact halves (14b), there is no crack (14), and the
+       children are on the next finer grid with the bound doubled, so d levels below a root with |mx| + 2|mw| < 2^(53-d)
+       are crack-free (14c).  This is the class the exact stream of the check generates (dyadic boxes and points), which
+       is why model and implementation must agree exactly there.  FR x = the real value of the double x (Flocq B2R).
+       Assumptions: the PrimFloat specification axioms of Coq.Floats.FloatAxioms and the classical reals. *)
+Theorem children_cover_binary64_exact_inputs : forall g c p,
+  (gmin <= g <= gmax)%Z -> cell_on_grid g c -> pt_finite p ->
+  fcontains c p = true ->
+  fcontains (fnwc c) p = true \/ fcontains (fnec c) p = true \/
+  fcontains (fswc c) p = true \/ fcontains (fsec c) p = true.
+Proof. exact children_cover_binary64_exact_inputs_gen. Qed.
+Print Assumptions children_cover_binary64_exact_inputs.
+Example children_cover_binary64_exact_inputs_nonvacuous :
+  (gmin <= -1 <= gmax)%Z /\ cell_on_grid (-1) unit_cell /\ pt_finite origin_pt /\
+  fcontains unit_cell origin_pt = true.
+Proof. exact exact_inputs_hyps. Qed.
+Theorem containsPoint_binary64_exact_on_grid : forall g c p,
+  (gmin <= g <= gmax)%Z -> cell_on_grid g c -> pt_finite p ->
+  (fcontains c p = true <->
+   (FR (fcx c) - FR (fchw c) <= FR (fst p) <= FR (fcx c) + FR (fchw c) /\
+    FR (fcy c) - FR (fchh c) <= FR (snd p) <= FR (fcy c) + FR (fchh c))%R).
+Proof. exact fcontains_exact_on_grid. Qed.
+Print Assumptions containsPoint_binary64_exact_on_grid.
+Theorem child_boxes_binary64_exact_on_grid : forall g c,
+  (gmin <= g <= gmax)%Z -> cell_on_grid g c ->
+  (FR (fchw (fnwc c)) = FR (fchw c) / 2 /\ FR (fchh (fnwc c)) = FR (fchh c) / 2 /\
+   FR (fcx (fnwc c)) = FR (fcx c) - FR (fchw c) / 2 /\ FR (fcx (fnec c)) = FR (fcx c) + FR (fchw c) / 2 /\
+   FR (fcy (fnwc c)) = FR (fcy c) - FR (fchh c) / 2 /\ FR (fcy (fswc c)) = FR (fcy c) + FR (fchh c) / 2)%R.
+Proof. exact fchildren_exact_on_grid. Qed.
+Print Assumptions child_boxes_binary64_exact_on_grid.
+Theorem no_crack_below_grid_root : forall (path : list nat) g d root p,
+  (length path <= d)%nat -> (Z.of_nat d <= FloatOps.prec)%Z ->
+  (gmin + Z.of_nat d <= g <= gmax)%Z ->
+  cell_on_grid_b g (2 ^ (FloatOps.prec - Z.of_nat d)) root ->
+  Forall (fun k => (k < 4)%nat) path ->
+  pt_finite p ->
+  fcrack (fdescend path root) p = false /\
+  (fcontains (fdescend path root) p = true ->
+   existsb (fun k => fcontains k p) (fchildren (fdescend path root)) = true).
+Proof. exact no_crack_below_grid_root_gen. Qed.
+Print Assumptions no_crack_below_grid_root.
+Example no_crack_below_grid_root_nonvacuous :
+  (length [0; 3; 1]%nat <= 40)%nat /\ (Z.of_nat 40 <= FloatOps.prec)%Z /\ (gmin + Z.of_nat 40 <= -1 <= gmax)%Z /\
+  cell_on_grid_b (-1) (2 ^ (FloatOps.prec - Z.of_nat 40)) unit_cell /\
+  Forall (fun k => (k < 4)%nat) [0; 3; 1]%nat /\ pt_finite origin_pt.
+Proof. exact no_crack_hyps. Qed.
